@@ -969,3 +969,120 @@ def check_sstr(R, drv, tier):
               "(trim over-approximated by any sub-slice on character boundaries; Regex::is_match unconstrained)", "wall_s": round(time.time() - t0, 2)})
     R.cov.setdefault("kernel_bounds", {})["K-sstr"] = f"UTF-8 texts of at most {L} bytes (every byte value, exact well-formedness); one s-string without interpolation"
     core.log(f"[K-sstr] {len(exits)} exits in {time.time()-t0:.1f}s")
+
+
+def check_quote(R, drv, tier):
+    """K-quote: quote_string chooses a delimiter that re-lexes to the same string, for every string of at most L characters"""
+    import quote
+    t0 = time.time()
+    L = 6 if tier == "quick" else 9
+    try:
+        funcs = kernels.load_parser(r"^quote_string($|::)")
+        text, dom = quote.symbolic_text(L)
+        st_ = quote.stubs(L)
+        I = Interp(funcs, stubs=st_, unwind=4, timeout_s=180)
+        I.stub_patterns = [(re.compile(r"^core::str::<impl str>::split$"), st_["__split__"]),
+                           (re.compile(r"^<(std|core)::str::Split<.*> as Iterator>::map$"), st_["__map__"]),
+                           (re.compile(r"^<(std|core)::iter::Map<(std|core)::str::Split<.*>, .*> as Iterator>::max$"), st_["__max__"]),
+                           (re.compile(r"^core::fmt::rt::Argument::<'_>::new_display$"), st_["__new_display__"]),
+                           (re.compile(r"^(core::fmt::)?Arguments::<'_>::new$"), st_["__args_new__"])]
+        I.opaque_sinks = True
+        I.lazy = False
+        exits = I.run("quote_string", [text], dom)
+    except Inconclusive as e:
+        R.engine_error(f"K-quote: {e}")
+        return
+    _account(R, I, "K-quote")
+    rets = [e for e in exits if e.kind == "return"]
+    if len(rets) < 3:
+        R.engine_error(f"K-quote: vacuous - {len(rets)} return exits (expected: no double quote, no single quote, both)")
+    inb = [z3.ULT(z3.BitVecVal(i, 64), text.n) for i in range(L)]
+
+    def maxrun(q):
+        """longest run of the character q in the text (written independently of the model inside the kernel)"""
+        best = z3.BitVecVal(0, 64)
+        for i in range(L):
+            for k in range(1, L - i + 1):
+                seg = z3.And(inb[i + k - 1], *[text.ch[i + j] == q for j in range(k)])
+                best = z3.If(z3.And(seg, z3.ULT(best, k)), z3.BitVecVal(k, 64), best)
+        return best
+    starts = lambda q: z3.And(text.n != 0, text.ch[0] == q)
+    ends = lambda q: z3.Or(*[z3.And(text.n == i + 1, text.ch[i] == q) for i in range(L)])
+    nviol = 0
+    for e in exits:
+        if e.kind != "return":
+            if e.kind == "panic":
+                v, model, dt = check(e.pc, z3.BoolVal(True))
+                R.q(v, dt)
+                if v == "sat":
+                    R.engine_error(f"K-quote: panic exit {e.msg} is reachable")
+            else:
+                R.engine_error(f"K-quote: exit {e.kind} {e.msg}")
+            continue
+        fm = [t for t in e.trace if isinstance(t, tuple) and t and t[0] == "format"]
+        if len(fm) != 1:
+            R.engine_error(f"K-quote: {len(fm)} format calls on a return path")
+            continue
+        desc = fm[0][1]
+        idx = [k for k, (kind, t) in enumerate(desc) if kind == "arg" and t is text]
+        if len(idx) != 1 or idx[0] != 1 or len(desc) != 3:
+            R.engine_error(f"K-quote: output is not delimiter + text + delimiter: {desc}")
+            continue
+
+        def delim(part):
+            kind, t = part
+            if kind == "lit" and len(t) == 1:
+                return z3.BitVecVal(ord(t), 32), z3.BitVecVal(1, 64)
+            if kind == "arg" and isinstance(t, quote.Rep):
+                return t.c, t.n
+            return None
+        d0, d1 = delim(desc[0]), delim(desc[2])
+        if d0 is None or d1 is None:
+            R.engine_error(f"K-quote: delimiter parts not understood: {desc}")
+            continue
+        (q, n), (q2, n2) = d0, d1
+        ok = z3.And(q == q2, n == n2, z3.Or(q == 34, q == 39), z3.URem(n, 2) == 1, z3.ULT(maxrun(q), n),
+                    z3.Or(n == 1, z3.And(z3.Not(starts(q)), z3.Not(ends(q)))))
+        # caller's guard (Display for Literal::String): a text with a double quote at one end and a single quote at the other is
+        # written with escapes and never reaches quote_string; the guard itself is probed through the real formatter below
+        DQ_, SQ_ = z3.BitVecVal(34, 32), z3.BitVecVal(39, 32)
+        mixed = z3.And(z3.Or(starts(DQ_), ends(DQ_)), z3.Or(starts(SQ_), ends(SQ_)))
+        v, model, dt = check(list(e.pc) + [z3.Not(mixed)], z3.Not(ok), timeout_ms=120000)
+        R.q(v, dt)
+        if v == "unknown":
+            R.engine_error("K-quote: unknown")
+        if v != "sat":
+            continue
+        ln = model.eval(text.n, model_completion=True).as_long()
+        cps = [model.eval(text.ch[i], model_completion=True).as_long() for i in range(ln)]
+        # characters other than the two quotes are irrelevant to the decision: print them as letters
+        txt = "".join(chr(c) if c in (34, 39) else "abcdefghi"[i] for i, c in enumerate(cps))
+        esc = txt.replace('"', '\\"')
+        prog = f'from t\nderive x = "{esc}"\n'
+        r = drv.req(op="fmt", prql=prog)
+        if r.get("ok") and (not r.get("same_tree") or r.get("reparse_errors") or not r.get("idempotent")):
+            nviol += 1
+            R.violation({"engine": "mirsym", "kernel": "K-quote", "kind": "fmt_quote", "starts_single_ends_double": txt.startswith("'") and txt.endswith('"'),
+                         "ends_with_chosen_quote": txt.endswith("'") and not txt.endswith('"')},
+                        f"K-quote: the string literal {txt!r} is printed as {str(r.get('formatted')).strip().splitlines()[-1]!r}, which does not lex back to it",
+                        {"prql": prog, "formatted": r.get("formatted"), "text": txt})
+        elif r.get("ok"):
+            R.cov.setdefault("unobservable_models", []).append(["K-quote", txt, str(r.get("formatted")).strip()[-80:]])
+        else:
+            R.engine_error(f"K-quote: replay program for {txt!r} does not format: {str(r)[:200]}")
+    # the guarded cases, through the real formatter (concrete probes of the caller's guard; raw strings cannot hold them)
+    for txt in ("\"'", "'\"", "\"a'", "'a\"", "\", ''\"", "\"''a\"\"'", "'\"\"a''\""):
+        esc = txt.replace('"', '\\"')
+        prog = f'from t\nderive x = "{esc}"\n'
+        r = drv.req(op="fmt", prql=prog)
+        if r.get("ok") and (not r.get("same_tree") or r.get("reparse_errors") or not r.get("idempotent")):
+            nviol += 1
+            R.violation({"engine": "mirsym", "kernel": "K-quote", "kind": "fmt_quote", "mixed_ends": True},
+                        f"K-quote: the string literal {txt!r} (a different quote at each end) is printed as {str(r.get('formatted')).strip().splitlines()[-1]!r}, which does not lex back to it",
+                        {"prql": prog, "formatted": r.get("formatted"), "text": txt})
+        elif not r.get("ok"):
+            R.engine_error(f"K-quote: probe program for {txt!r} does not format: {str(r)[:200]}")
+    R.sample({"kernel": "K-quote", "exits": len(exits), "property": f"for every string of <= {L} characters quote_string emits q^n + text + q^n with q a quote character, n odd, n greater than the "
+              "longest run of q in the text, and (n > 1) the text neither starting nor ending with q", "wall_s": round(time.time() - t0, 2)})
+    R.cov.setdefault("bounds", {})["K-quote"] = f"strings of at most {L} characters (every code point); both closures of quote_string executed from MIR"
+    core.log(f"[K-quote] {len(exits)} exits, {nviol} violations in {time.time()-t0:.1f}s")
